@@ -380,7 +380,12 @@ def case_legacy_theory(log, items):
 def _nf_formula(mu2, walls, nf):
     """[D4] nf = 3 + number of matching scales passed; at a matching scale itself either side is accepted"""
     def z(x):
-        return S.poly_to_z3((x.v.n * x.v.den_odd()) if x.v.den else x.v.n) if isinstance(x, SR) else z3.RealVal(str(Fraction(x)))
+        if isinstance(x, SR):
+            q = x.v.canon() if x.v.den else x.v
+            if q.den:
+                raise EngineError("scale with a denominator in the default-flow formula")
+            return S.poly_to_z3(q.n.reduce())
+        return z3.RealVal(str(Fraction(x)))
 
     zm = z(mu2)
     lo = z3.Sum([z3.If(zm > z(w), 1, 0) for w in walls]) + 3
